@@ -29,10 +29,12 @@ def shards(tier):
 
 
 def gates(c, tier):
+    # The deciding monitor is the boundary oracle (ASN1Writer / ASN1Reader against the arithmetic reference); the icontract
+    # post-conditions on the module-level primitives are a second, inner monitor whose evaluation counts are reported as
+    # evidence ("contract:<name>") but do not gate: a refactor may stop routing the classes through those functions.
     need = ["int-write", "int-read-padded", "int-read-random", "enum", "tag", "tag-multioctet", "len-long", "bool", "octets", "nest",
-            "child-refuses-sibling", "reader-op-sequences", "writable-input", "truncated-with-header", "header-truncations", "writer-interleavings", "failed-read-keeps-position", "repo-tests-under-contracts:runs", "contract:_pack_asn1_integer", "contract:_read_asn1_integer", "contract:_pack_asn1",
-            "contract:_read_asn1_header"]  # the four primitives the repository's tests also name; the two octet-number helpers are
-    # checked when present (evidence) but may be renamed by a refactor without making this check inconclusive
+            "child-refuses-sibling", "reader-op-sequences", "writable-input", "truncated-with-header", "header-truncations", "writer-interleavings",
+            "failed-read-keeps-position", "input-buffer-kinds", "int-beyond-4300-digits", "repo-tests-under-contracts:runs"]
     return [f"never exercised: {k}" for k in need if c.get(k, 0) == 0]
 
 
